@@ -206,8 +206,9 @@ class Check(object):
             nruns = opts["nruns"]
         t0 = time.time()
         build_s = build(sorted(set([flavour] + list(getattr(mod, "FLAVOURS", [])))))
-        total = usimlib.run_pool(mod.__name__, self.prop, tier, verif_seed, nruns, workers, flavour, wall_cap, opts)
         known = load_known()
+        opts["known_ids"] = [x["id"] for x in known.get("findings", []) if x["property"] == self.prop]
+        total = usimlib.run_pool(mod.__name__, self.prop, tier, verif_seed, nruns, workers, flavour, wall_cap, opts)
         status = 0
         reported = []
         known_hit = {}
@@ -250,6 +251,11 @@ class Check(object):
             reported.append((rule, path, len(vs)))
             if status == 0:
                 status = 1
+        for cls, n in total.known.items():
+            # the first example of each class per worker went through the loop above; add the ones only counted
+            extra = n - 1
+            if extra > 0:
+                known_hit[cls] = known_hit.get(cls, 0) + extra
         for cls, n in sorted(known_hit.items()):
             f = [x for x in known["findings"] if x["id"] == cls][0]
             print("KNOWN-FINDING: property=%s %s [%s] (%d runs)" % (self.prop, f["what"], cls, n))
